@@ -237,7 +237,7 @@ func (c *Check) updateFraming(ruleS, ruleG string) {
 				if e.Op != "nn" || e.Args[0].Op != "rcall" || len(e.Args[0].Args) == 0 {
 					return nil, false
 				}
-				if v := e.Args[0].Args[0]; v.Op == "val" && v.S == name {
+				if v := e.Args[0].Args[0]; v.Op == "val" && (v.S == name || strings.HasSuffix(v.S, "."+name)) {
 					return isConst(b2i(nonNil)), true
 				}
 				return nil, false
@@ -985,6 +985,21 @@ func (c *Check) decoderStateless(rule string) {
 					}
 					m++
 					recv := p.origin(cl.Common().Args[0])
+					if fv, isFV := recv.(*ssa.FreeVar); isFV {
+						// captured by a closure of the decoder: the cell bound at its creation
+						if par := fv.Parent().Parent(); par != nil {
+							for i, x := range fv.Parent().FreeVars {
+								if x != fv {
+									continue
+								}
+								ownInstrs(par, func(in ssa.Instruction) {
+									if mc, ok := in.(*ssa.MakeClosure); ok && mc.Fn == ssa.Value(fv.Parent()) && i < len(mc.Bindings) {
+										recv = mc.Bindings[i]
+									}
+								})
+							}
+						}
+					}
 					_, isAlloc := recv.(*ssa.Alloc)
 					c.require(isAlloc && !inLoop(recv.(ssa.Instruction).Block()), rule, p.Name(fn), "bitmap receiver of "+d, p.InstrPos(cl.(ssa.Instruction)),
 						"the duplicate bitmap is a variable of this call (allocated and zeroed once per call, outside the attribute loop)")
